@@ -103,7 +103,7 @@ func (g *G) addr() string {
 	return hx.Hex(a[:])
 }
 func (g *G) pick(xs [][]byte) string { return hx.Hex(xs[g.r.Intn(len(xs))]) }
-func (g *G) amount() string         { return g.u.amounts[g.r.Intn(len(g.u.amounts))].String() }
+func (g *G) amount() string          { return g.u.amounts[g.r.Intn(len(g.u.amounts))].String() }
 func (g *G) smallAmount() string {
 	if g.r.Chance(1, 3) {
 		return "0"
